@@ -93,6 +93,17 @@ PROPS = {
         'level_text': 'Verus proves on the real bodies: from_der parses plain DER as given (whatever its last byte) and DER+flag by stripping exactly one valid flag byte, and accepts nothing else; compact form = [27 + recid + 4*compressed] ++ r ++ s; from_compact accepts exactly 65 bytes with header 27..=34 and in-range scalars, decodes the recovery id and compression marker (round trip of all 8 header combinations by lemma), and never panics; SighashSignature = strict DER ++ flag byte both ways; recovery uses the recorded id, the same digest selection as signing and the recorded compression form, and a digest that is not 32 bytes is an error.',
         'level_note': TB + ' Elliptic-curve mathematics and DER parsing inside k256 are assumed.',
     },
+    'C07': {
+        'units': {
+            'keys_glue': ['*'],
+        },
+        'assumptions': ['k256 / elliptic-curve: SEC1 framing and point validation, compression / decompression, scalar validity and d*G are uninterpreted functions with the named axioms (axiom_sec1_forms, axiom_sec1_valid_framing, axiom_pub_valid); equality with an independent secp256k1 is NOT decided',
+                        'bs58 and hex encode/decode are uninterpreted with decode(encode(b)) == Some(b)', SHA,
+                        'NOT covered: PrivateKey::to_wif_impl, P2PKHAddress::to_locking_script_impl and the script text of to_unlocking_script_impl assemble their result with format!() on hex strings, whose content this technique cannot see (macro M2)'],
+        'design_ref': 'DESIGN.md section 4 C07',
+        'level_text': 'Verus proves on the real bodies: PublicKey::from_bytes accepts exactly SEC1 encodings of non-identity curve points and keeps the bytes; compress / decompress return the same point in the other form and never panic; the public key and point of a private key use its compression flag; address = prefix ++ hash160(encoded key) ++ first 4 bytes of sha256d(prefix ++ hash); to_string is Base58 of exactly those 25 bytes (checksum recomputed); from_string accepts exactly 25 decoded bytes with a matching checksum whatever the text length and returns those fields; set_chain_params re-prefixes and re-checksums; the unlocking script is refused unless hash160(key) equals the address hash, whatever the prefix; from_wif enforces the 4-byte checksum, decodes prefix / key / compression suffix by position, accepts only a valid scalar and never indexes out of range.',
+        'level_note': TB + ' Curve arithmetic, Base58 and hex codecs are assumed.',
+    },
     'C04': {
         'units': {
             'tx_cache': ['*'],
@@ -108,7 +119,6 @@ PROPS = {
 
 NOT_CLAIMED = {
     'C05': 'not reached yet',
-    'C07': 'not reached yet',
     'C08': 'not reached yet',
     'C09': 'not reached yet',
     'C11': 'not reached yet',
